@@ -404,6 +404,7 @@ func runC14(o *Out) {
 		o.Case("secondary-history", true, "cache_hist ("+strings.Join(hs, " ")+")", "ok ("+strings.Join(cs, " ")+")")
 		scenarioStdinOffset(o, gb, aux)
 		scenarioInterrupted(o, gb)
+		scenarioNoCacheDir(o, gb)
 		// different primary inputs on stdin under one command line
 		var hs2, cs2 []string
 		s4 := newSandbox()
@@ -532,4 +533,56 @@ func scenarioInterrupted(o *Out, gb []byte) {
 	}
 	s6.close()
 
+}
+
+// the cache directory cannot be had (its place is taken by a regular file; no
+// HOME and no XDG_CACHE_HOME at all; a relative XDG_CACHE_HOME): the command
+// still writes what --no-cache writes and exits as --no-cache exits
+func scenarioNoCacheDir(o *Out, gb []byte) {
+	s := newSandbox()
+	defer s.close()
+	blocker := filepath.Join(s.dir, "blocker")
+	ioutil.WriteFile(blocker, []byte("not a directory"), 0644)
+	envs := map[string][]string{
+		"XDG_CACHE_HOME is a regular file": {"XDG_CACHE_HOME=" + blocker, "HOME=" + filepath.Join(s.dir, "home"), "PATH=/usr/bin:/bin"},
+		"neither HOME nor XDG_CACHE_HOME":  {"PATH=/usr/bin:/bin"},
+		"HOME/.cache is a regular file":    {"HOME=" + blocker, "PATH=/usr/bin:/bin"},
+		"relative XDG_CACHE_HOME":          {"XDG_CACHE_HOME=rel/cache", "HOME=" + filepath.Join(s.dir, "home"), "PATH=/usr/bin:/bin"},
+	}
+	run := func(env []string, args ...string) runResult {
+		cmd := exec.Command(gtsBin, args...)
+		cmd.Env = env
+		cmd.Dir = filepath.Join(s.dir, "tmp")
+		cmd.Stdin = bytes.NewReader(gb)
+		var so, se bytes.Buffer
+		cmd.Stdout, cmd.Stderr = &so, &se
+		err := cmd.Run()
+		code := 0
+		if err != nil {
+			if ee, ok := err.(*exec.ExitError); ok {
+				code = ee.ExitCode()
+			} else {
+				code = -1
+			}
+		}
+		return runResult{stdout: so.Bytes(), code: code}
+	}
+	names := make([]string, 0, len(envs))
+	for k := range envs {
+		names = append(names, k)
+	}
+	sort.Strings(names)
+	for _, name := range names {
+		for _, sub := range [][]string{{"reverse"}, {"complement"}} {
+			ref := run(envs[name], append(append([]string{}, sub...), "--no-cache")...)
+			for step := 0; step < 2; step++ {
+				got := run(envs[name], sub...)
+				o.Dist["cli-no-cache-dir"]++
+				if !sameResult(got, ref) {
+					o.Violate("no-cache-dir-not-transparent", fmt.Sprintf("gts %s with %s (run %d)", sub[0], name, step+1),
+						fmt.Sprintf("exit %d vs %d, %d vs %d bytes", got.code, ref.code, len(got.stdout), len(ref.stdout)))
+				}
+			}
+		}
+	}
 }
